@@ -32,10 +32,15 @@ func VerifC18BridgeCallFailure() {
 	// the callee writes into the chain store and then the call fails
 	marker := []byte{0x7e, 0x01}
 	e.evm.BeforeCall = func(ctx sdk.Context) { ctx.KVStore(e.k.storeKey).Set(marker, []byte{1}) }
-	if rt.Bool("evmReverts") {
-		e.evm.CallVmErr = true
-	} else {
+	switch rt.Choose("failure", 4) {
+	case 0:
 		e.evm.CallFails = true
+	case 1:
+		e.evm.CallVmErr = true // execution reverted
+	case 2:
+		e.evm.CallVmErr, e.evm.VmErrText = true, "out of gas"
+	default:
+		e.evm.CallVmErr, e.evm.VmErrText = true, "invalid jump destination"
 	}
 	claim := &types.MsgBridgeCallClaim{ChainName: verifModule, BridgerAddress: verifOracleIdent(0).bridger.String(), EventNonce: 7, BlockHeight: 900,
 		Sender: verifAddrB, Refund: verifTargetContract, To: verifTargetContract, TokenContracts: []string{verifTokenA}, Amounts: []sdkmath.Int{x},
